@@ -76,8 +76,8 @@ type Config struct {
 	// Inits names the initial states; MakeInit builds one.
 	Inits    []string
 	MakeInit func(driver, init string) *hx.World
-	// Alphabet lists the operations enabled in a state (depth = number of steps already taken).
-	Alphabet func(w *hx.World, hist []*rspb.Release, depth int) []Step
+	// Alphabet lists the steps enabled in a state reached by path.
+	Alphabet func(w *hx.World, hist []*rspb.Release, path []Step) []Step
 	MaxDepth int
 	// MaxFaulty bounds the number of faulty steps on a path.
 	MaxFaulty int
@@ -139,9 +139,9 @@ func ApplyEnv(w *hx.World, e *EnvStep) {
 					if _, ok := d["size"]; ok {
 						d["size"] = float64(99)
 					}
-					if ps, ok := d["ports"].([]any); ok && len(ps) > 0 {
-						if p0, ok := ps[0].(map[string]any); ok {
-							p0["port"] = float64(9999)
+					if sel, ok := d["selector"].(map[string]any); ok {
+						if _, ok := sel["app"]; ok {
+							sel["app"] = "edited"
 						}
 					}
 				}
@@ -208,7 +208,7 @@ func (cfg *Config) Run(c *core.Ctx) {
 			w0 := cfg.MakeInit(drv, init)
 			h0 := w0.History(cfg.release())
 			c.State(w0.Canon())
-			first := cfg.Alphabet(w0, h0, 0)
+			first := cfg.Alphabet(w0, h0, nil)
 			for _, st := range first {
 				// one unit of work per (driver, init, first step); the first step's
 				// faults belong to the same unit.
@@ -224,7 +224,7 @@ func (cfg *Config) Run(c *core.Ctx) {
 					if len(n.path) >= cfg.MaxDepth {
 						continue
 					}
-					for _, st2 := range cfg.Alphabet(n.w, n.hist, len(n.path)) {
+					for _, st2 := range cfg.Alphabet(n.w, n.hist, n.path) {
 						cfg.expandStep(c, drv, init, n, st2, seen, &frontier)
 					}
 				}
